@@ -95,7 +95,7 @@ def judge(ctx, cases):
         elif case["ev"] == "write":
             wit = {"tree": show(case["tree"])}
         else:
-            r = next((x for x in L["rs"] if not x["gerr"] and not x["oerr"] and x["g"] != x["o"]), L["rs"][0])
+            r = next((x for x in L["rs"] if x["gerr"] != x["oerr"] or (not x["gerr"] and x["g"] != x["o"])), L["rs"][0])
             wit = {"text": L["text"], "mode": r["m"], "gen.Parser": show(r["g"]), "Generify(oj.Parser)": show(r["o"])}
         recs.append({"api": b["api"], "kind": b["kind"], "locus": locus, "witness": wit, "case": case})
     nconv = sum(1 for l in case_lines if b'"ev":"conv"' in l)
@@ -151,7 +151,7 @@ def main(ctx):
         "a big number may come back as a big number or as a string with the same text (gen.Big.Simplify documents the string)",
         "in-place operations (GenAlter, Node.Alter, alt.Alter) are only required to preserve the value; their input is not looked at again",
         "writer cross-check: float32 leaves are widened first (writers print float32 with 32-bit precision by design); uint64 beyond int64 excluded",
-        "parser cross-check only on texts both parsers accept (accept/reject agreement is C03)",
+        "parser cross-check: one parser returning an error where the other returns a value counts as unequal output (accept-differs); texts both reject are skipped",
     ]
 
     def confirm(rec):
